@@ -38,7 +38,7 @@ SPEC = {
     "assumptions": ["recording file server keys files by exact project path, as FileServerMock does"],
 }
 
-DIRS = ["", "a/", "a/b/", "c/", "a/b/d/"]
+DIRS = ["", "a/", "a/b/", "c/", "a/b/d/", "A/", "a/B/", "C/", "a/b/D/"]      # letter case is significant in names
 
 
 def spell(rng, src_path, dst_path):
@@ -78,7 +78,7 @@ def gen_tree(rng):
     n = rng.randint(2, 8)
     paths = []
     for i in range(n):
-        p = rng.choice(DIRS) + "f%d.asm" % i
+        p = rng.choice(DIRS) + rng.choice(["f%d.asm", "f%d.asm", "F%d.asm", "f%d.ASM"]) % i
         paths.append(p)
     root = paths[0]
     files = {}
@@ -101,6 +101,17 @@ def gen_tree(rng):
         if i > 0 and rng.random() < 0.12:
             items = [it for it in items if it[0] != "mark"][:rng.choice([0, 0, 1])]      # a file that emits nothing itself
         files[p] = {"items": items, "once": rng.random() < 0.3}
+        # a `#once` inside an arm that is not selected asks for nothing
+        files[p]["dead_once"] = not files[p]["once"] and rng.random() < 0.15
+    if rng.random() < 0.3:
+        # a sibling whose name differs only by letter case is a different file
+        p = rng.choice(paths)
+        d, _, n = p.rpartition("/")
+        twin = (d + "/" if d else "") + (n.upper() if n != n.upper() and rng.random() < 0.5 else n.swapcase())
+        if rng.random() < 0.4 and d:
+            twin = d.swapcase() + "/" + n
+        if twin not in files:
+            files[twin] = {"items": [("mark", 0xee)], "once": False, "dead_once": False}
     return files, root
 
 
@@ -108,6 +119,8 @@ def render_file(f):
     lines = []
     if f["once"]:
         lines.append("#once")
+    if f.get("dead_once"):
+        lines.append("#if 1 == 0\n{\n    #once\n}")
     for it in f["items"]:
         if it[0] == "mark":
             lines.append("#d8 0x%02x" % it[1])
